@@ -51,7 +51,7 @@ def validDescOrder (n : Nat) (val : Nat → Rat) (order : List Nat) : Bool :=
   decide (order.length = n) && (List.range n).all (fun v => order.count v == 1) &&
     (List.range (n - 1)).all (fun i => decide (val (order.getD (i + 1) 0) ≤ val (order.getD i 0)))
 
-/-- first index of the maximum of `val` among the vertices `v < V` with `mask v` (`ma.argmax`) -/
+/-- first index of the maximum of `val` among the vertices `v < V` with `mask v` (`_argmax_within`; before the fix a masked `ma.argmax`) -/
 def maskedArgmax (V : Nat) (val : Nat → Rat) (mask : Nat → Bool) : Nat :=
   (argmaxRow val ((List.range V).filter mask)).getD 0
 
